@@ -201,10 +201,12 @@ def ksr_for(state, variant, seq):
     rid = f"ksr-{seq}"
     if variant == "honest":
         return quarter(start, zidx, rid)
+    def fresh_bundle_ids(q):
+        return dict(q, bundles=[dict(b, id=f"fresh-{seq}-{j}") for j, b in enumerate(q["bundles"])])
     if variant == "replayed":
-        return quarter(start, zidx, state["skr"]["id"])
+        return fresh_bundle_ids(quarter(start, zidx, state["skr"]["id"]))
     if variant == "replayed-other-serial":
-        return dict(quarter(start, zidx, state["skr"]["id"]), serial=state["skr"]["serial"] + 1)
+        return dict(fresh_bundle_ids(quarter(start, zidx, state["skr"]["id"])), serial=state["skr"]["serial"] + 1)
     if variant == "gapped":
         return quarter(lastb["exp"] + D(days=1), zidx, rid)
     if variant == "too-early":
